@@ -45,7 +45,7 @@ def run(chk):
     n = 1500 if quick else 12000
     budgets = [1, 2, 3, 10]
     known = {f['class'] for f in vlib.known_findings() if f['status'] == 'known'}
-    progs = [asm_gen.gen_frozen_prog(rng) if rng.chance(0.05) else asm_gen.gen_shift_prog(rng) if rng.chance(0.15) else asm_gen.gen_prog(rng, size_static=rng.chance(0.3), collide=rng.chance(0.4), boundary=rng.chance(0.2)) for _ in range(n)]
+    progs = [asm_gen.gen_pcassert_prog(rng) if rng.chance(0.04) else asm_gen.gen_frozen_prog(rng) if rng.chance(0.05) else asm_gen.gen_shift_prog(rng) if rng.chance(0.15) else asm_gen.gen_prog(rng, size_static=rng.chance(0.3), collide=rng.chance(0.4), boundary=rng.chance(0.2)) for _ in range(n)]
     # label-free, statically known programs (the F70 situation at budget 1)
     for _ in range(20 if quick else 200):
         q = asm_gen.Prog(asm_gen.Isa())
